@@ -74,7 +74,7 @@ Definition ineq_model_ok (c : ineq_case) : bool :=
   let add_eq := if i_py c then add_eq_py else add_eq_cy in
   match i_unb c with
   | Some lam1 =>
-      match plan_inequality a (i_const c) (i_lb c) (i_ub c), i_out c with
+      match plan_inequality_g false a (i_const c) (i_lb c) (i_ub c), i_out c with
       | Skip, OReturned [] => poly_coeff_eqb (i_n c) before after
       | Infeasible, ORaised => poly_coeff_eqb (i_n c) before after
       | Equality ubc, OReturned [] | Slack ubc _, OReturned [] =>
@@ -83,7 +83,7 @@ Definition ineq_model_ok (c : ineq_case) : bool :=
       | _, _ => false
       end
   | None =>
-      match plan_inequality_cz (i_cz c) a (i_const c) (i_lb c) (i_ub c), i_out c with
+      match plan_inequality_g (i_cz c) a (i_const c) (i_lb c) (i_ub c), i_out c with
       | Skip, OReturned [] => poly_coeff_eqb (i_n c) before after
       | Infeasible, ORaised => poly_coeff_eqb (i_n c) before after
       | Equality ubc, OReturned [] =>
@@ -199,6 +199,7 @@ Record dqm_ineq_case := mkDqmIneq {
   di_method : slack_method;
   di_terms : list (label * Z);
   di_lam : Qc; di_const : Z; di_lb : Z; di_ub : Z;
+  di_cz : bool;                           (* cross_zero *)
   di_out : dqm_outcome;
   di_before : obs; di_after : obs;
   di_en_before : list (list (label * Qc) * Qc);     (* every one-hot sample of the old variables *)
@@ -224,11 +225,28 @@ Definition dqm_ineq_model_ok (c : dqm_ineq_case) : bool :=
       let U := plan_U a (di_const c) (di_lb c) (di_ub c) in
       let groups := di_groups c ++ map (map fst) sl in
       let slack_terms := flat_map (fun var => tl var) sl in
-      list_eqb (list_eqb Z.eqb) (map (map snd) sl) (dqm_slack_values (di_method c) U)
+      let zero := dqm_cz_active (di_cz c) (lbc_of a (di_const c) (di_lb c)) ubc in
+      list_eqb (list_eqb Z.eqb) (map (map snd) sl) (dqm_slack_values_cz (di_method c) U ubc zero)
       && poly_coeff_eqb (di_n c)
            (add_eq_dqm (grp_of groups) (qterms (di_terms c ++ slack_terms)) (di_lam c) (zq (- ubc)) before) after
   | _, _ => false
   end.
+
+(* what the added objective admits: the constraint itself; with cross_zero active also, per method,
+   log2: -U <= sum <= 0 ; linear: sum = 0 ; log10: -(10^(digits-1) - 1) <= sum <= 0 *)
+Definition dqm_allowed_q (c : dqm_ineq_case) (A : Qc) : bool :=
+  let a := map snd (di_terms c) in
+  let lbc := lbc_of a (di_const c) (di_lb c) in
+  let ubc := ubc_of a (di_const c) (di_ub c) in
+  let U := (ubc - lbc)%Z in
+  feasible_q A (di_const c) (di_lb c) (di_ub c)
+  || (dqm_cz_active (di_cz c) lbc ubc && (0 <? U)%Z
+      && Qc_leb A 0
+      && match di_method c with
+         | Log2 => Qc_leb (zq (- U)) A
+         | Linear => Qc_eqb A 0
+         | Log10 => Qc_leb (zq (- (10 ^ Z.of_nat (pred (ndigits (Z.to_nat U) U)) - 1))) A
+         end).
 
 Definition dqm_ineq_oracle_ok (c : dqm_ineq_case) : bool :=
   let before := obs_poly (di_before c) in
@@ -238,7 +256,7 @@ Definition dqm_ineq_oracle_ok (c : dqm_ineq_case) : bool :=
   | DRaised => forallb (fun x => negb (feasible_q (zdot (di_terms c) x) (di_const c) (di_lb c) (di_ub c))) xs
   | DReturned sl =>
       let sas := onehot_assigns (map (map fst) sl) in
-      forallb (fun x => gap_ok (feasible_q (zdot (di_terms c) x) (di_const c) (di_lb c) (di_ub c))
+      forallb (fun x => gap_ok (dqm_allowed_q c (zdot (di_terms c) x))
                                (min_increase before after x sas) (di_lam c)) xs
   end.
 
@@ -354,11 +372,30 @@ Definition inv_ok (E : encoding) (vars : list (label * cvar)) (r : list (label *
   let x := sample_of_list (snd r) in
   forallb (fun vk => Qc_eqb (invert E s (fst vk)) (x (fst vk))) vars.
 
+(* the code-shaped _qm_to_bqm / inverter (Model/CqmBqm.v) on the same tables *)
+Definition spins_of (vars : list (label * cvar)) : list label :=
+  map fst (filter (fun vk => match snd vk with CSpin => true | _ => false end) vars).
+Definition ints_of (vars : list (label * cvar)) (E : encoding) : int_table :=
+  map (fun vk => (fst vk, p_lin (E (fst vk)))) (filter (fun vk => match snd vk with CInt _ => true | _ => false end) vars).
+Definition binary_of (vars : list (label * cvar)) : list (label * vartype) :=
+  map (fun vk => (fst vk, match snd vk with CSpin => SPIN | _ => BINARY end))
+      (filter (fun vk => match snd vk with CInt _ => false | _ => true end) vars).
+
+Definition code_model_ok (c : cqm_case) (E : encoding) : bool :=
+  let spins := spins_of (q_vars c) in
+  let ints := ints_of (q_vars c) E in
+  forallb (fun o => poly_coeff_eqb (q_n c) (qm_to_bqm_code spins ints (obs_poly o)) (encode_poly E (obs_poly o)))
+          (q_obj c :: map (fun k => fst (fst k)) (q_cons c))
+  && forallb (fun r => let out := sample_of_list (inverter_call (binary_of (q_vars c)) ints (sample_of_list (fst r))) in
+                       let want := sample_of_list (snd r) in
+                       forallb (fun vk => Qc_eqb (out (fst vk)) (want (fst vk))) (q_vars c)) (q_inv c).
+
 Definition check_cqm (c : cqm_case) : bool :=
   let E := enc_of (q_enc c) in
   let dist := distribute E (q_cons c) (q_slack c) in
   let ks := fst dist in
   enc_ok (q_vars c) E
+  && code_model_ok c E
   && Bool.eqb (cqm_raises E ks) (q_raised c)
   && (if q_raised c then true   (* no BQM, hence no slack labels, to compare with *)
       else forallb (con_wf E) ks
